@@ -51,6 +51,9 @@ Dump(rep, par) ==
     /\ rep.chunk_count = par.chunk_count                      \* reported count = declared count ...
     /\ Len(rep.chunks) = Len(par.chunks) /\ Len(rep.chunks) >= 1   \* ... = chunks reachable by iteration >= 1
     /\ \A i \in 1..Len(rep.chunks) : ChunkSame(rep.chunks[i], par.chunks[i])
+    \* a lookup by number returns that chunk, or nothing past the end - whatever was looked up before
+    /\ \A i \in 1..Len(rep.bynum) :
+          rep.bynum[i][2] = (IF rep.bynum[i][1] < Len(par.chunks) THEN rep.bynum[i][1] ELSE 0 - 1)
     /\ UNCHANGED hvars
 
 \* C03 cursor discipline: the parsed sections lie inside the header buffer
